@@ -152,6 +152,7 @@ type knownFinding struct {
 	Property string `json:"property"`
 	What     string `json:"what"`
 	Harness  string `json:"harness"`  // harness name whose violation this is
+	Instance string `json:"instance"` // substring of the instance description (optional)
 	Label    string `json:"label"`    // assertion label / panic label substring
 	Site     string `json:"site"`     // site substring (optional)
 	Exclude  string `json:"exclude"`  // id passed to vKnown() in harnesses
@@ -194,6 +195,9 @@ func (g *Engine) matchKnown(prop string, v FoundViolation) string {
 			continue
 		}
 		if k.Label != "" && !strings.Contains(v.Label, k.Label) {
+			continue
+		}
+		if k.Instance != "" && !strings.Contains(v.Instance.String(), k.Instance+",") && !strings.Contains(v.Instance.String(), k.Instance+")") {
 			continue
 		}
 		if k.Site != "" && !strings.Contains(v.Site, k.Site) {
